@@ -176,7 +176,10 @@ pub fn leaf_scripts(d: &MDesc) -> Result<Vec<(Vec<u8>, [u8; 32])>, String> {
 }
 
 /// Real signatures for every key of `d` the world holds, over input `idx` of `tx`.
-pub fn sign_real(d: &MDesc, world: &World, t: &TxCtx) -> Result<WorldSat, String> {
+pub fn sign_real(d: &MDesc, world: &World, t: &TxCtx) -> Result<WorldSat, String> { sign_real_with(d, world, t, &BTreeSet::new()) }
+
+/// As `sign_real`; taproot keys in `tap_all` sign with an explicit SIGHASH_ALL (65-byte signatures).
+pub fn sign_real_with(d: &MDesc, world: &World, t: &TxCtx, tap_all: &BTreeSet<[u8; 32]>) -> Result<WorldSat, String> {
     let secp = &u().secp;
     let mut s = base_sat(world);
     let scripts = d.scripts()?;
@@ -196,12 +199,11 @@ pub fn sign_real(d: &MDesc, world: &World, t: &TxCtx) -> Result<WorldSat, String
                 };
                 let tw = bip341::taptweak_hash(&ik32, root.as_ref());
                 let kp2 = kp.add_xonly_tweak(secp, &Scalar::from_be_bytes(tw).map_err(|_| "tweak")?).map_err(|_| "tweak")?;
+                let ty = if tap_all.contains(&ik32) { TapSighashType::All } else { TapSighashType::Default };
                 let mut cache = SighashCache::new(&t.tx);
-                let h = cache
-                    .taproot_signature_hash(t.idx, &Prevouts::All(&t.prevouts), None, None, TapSighashType::Default)
-                    .map_err(|e| e.to_string())?;
+                let h = cache.taproot_signature_hash(t.idx, &Prevouts::All(&t.prevouts), None, None, ty).map_err(|e| e.to_string())?;
                 let sig = secp.sign_schnorr_no_aux_rand(&Message::from_digest(h.to_byte_array()), &kp2);
-                s.tap_key = Some(bitcoin::taproot::Signature { signature: sig, sighash_type: TapSighashType::Default });
+                s.tap_key = Some(bitcoin::taproot::Signature { signature: sig, sighash_type: ty });
             }
             if let Some(tree) = tree {
                 for (_, n) in tree.leaves() {
@@ -215,20 +217,15 @@ pub fn sign_real(d: &MDesc, world: &World, t: &TxCtx) -> Result<WorldSat, String
                         }
                         let sk = keys::secret_for(&kb).ok_or("no secret")?;
                         let kp = Keypair::from_secret_key(secp, &sk);
-                        let mut cache = SighashCache::new(&t.tx);
-                        let h = cache
-                            .taproot_signature_hash(
-                                t.idx,
-                                &Prevouts::All(&t.prevouts),
-                                None,
-                                Some((TapLeafHash::from_byte_array(lh), 0xffff_ffff)),
-                                TapSighashType::Default,
-                            )
-                            .map_err(|e| e.to_string())?;
-                        let sig = secp.sign_schnorr_no_aux_rand(&Message::from_digest(h.to_byte_array()), &kp);
                         let mut x = [0u8; 32];
                         x.copy_from_slice(&kb);
-                        s.tap_leaf.insert((x, lh), bitcoin::taproot::Signature { signature: sig, sighash_type: TapSighashType::Default });
+                        let ty = if tap_all.contains(&x) { TapSighashType::All } else { TapSighashType::Default };
+                        let mut cache = SighashCache::new(&t.tx);
+                        let h = cache
+                            .taproot_signature_hash(t.idx, &Prevouts::All(&t.prevouts), None, Some((TapLeafHash::from_byte_array(lh), 0xffff_ffff)), ty)
+                            .map_err(|e| e.to_string())?;
+                        let sig = secp.sign_schnorr_no_aux_rand(&Message::from_digest(h.to_byte_array()), &kp);
+                        s.tap_leaf.insert((x, lh), bitcoin::taproot::Signature { signature: sig, sighash_type: ty });
                     }
                 }
             }
